@@ -38,7 +38,7 @@ NoLim == -1
 AddrsDef == [p \in Peers |-> IF p = "p1" THEN {"p1a", "p1b"} ELSE IF p = "p2" THEN {"p2a", "p2b"} ELSE {"p3a"}]
 AddrsOne == [p \in Peers |-> IF p = "p1" THEN {"p1a"} ELSE IF p = "p2" THEN {"p2a"} ELSE {"p3a"}]
 NoFixed == {}
-FixedNow == {"hdial-refused-silently"}
+FixedNow == {"hdial-refused-silently", "hdial-addr-refused-silently"}
 LimNone == {<<NoLim, NoLim>>}
 LimSmall == {<<1, 1>>, <<0, 1>>, <<1, 0>>}
 LimMixed == {<<NoLim, NoLim>>, <<1, 1>>, <<2, 1>>, <<0, NoLim>>}
@@ -146,15 +146,22 @@ HDial(p) ==
   ELSE IF known[p] = {} THEN UNCHANGED <<mvars, kf>> /\ Handle(stim, <<>>, <<>>, "err")
   ELSE DialBody(p, stim, TRUE)
 
-UDialAddr(p, a) ==
-  LET stim == [a |-> "dial_addr", p |-> p, addr |-> a] IN
-  IF Full(limOut, MaxOut) THEN UNCHANGED <<mvars, kf>> /\ Handle(stim, <<>>, <<>>, "limit")
+\* body of TransportManager::dial_address; `swallow` = reached through the handle's DialAddress
+\* command (TransportService::dial_address returned Ok, errors are not returned to anybody)
+DialAddrBody(p, a, stim, swallow) ==
+  IF Full(limOut, MaxOut) THEN
+       /\ UNCHANGED <<mvars>>
+       /\ kf' = IF swallow /\ "hdial-addr-refused-silently" \notin Fixed THEN kf \cup {"hdial-addr-refused-silently"} ELSE kf
+       /\ Handle(stim, <<>>,
+                 IF swallow /\ "hdial-addr-refused-silently" \in Fixed
+                   THEN <<[k |-> "proto_dial_failure", peer |-> p, cid |-> -1, addrs |-> <<a>>]>> ELSE <<>>,
+                 IF swallow THEN "ok" ELSE "limit")
   ELSE /\ next < MaxCid
        /\ next' = next + 1            \* the connection id is allocated before the state check
        /\ known' = [known EXCEPT ![p] = @ \cup {a}]
        /\ UNCHANGED <<limIn, limOut, kf>>
        /\ IF ps[p].k = "conn" THEN
-               UNCHANGED <<ps, pend, tx, cpeer, cdir, caddrs>> /\ Handle(stim, <<>>, <<>>, "err")
+               UNCHANGED <<ps, pend, tx, cpeer, cdir, caddrs>> /\ Handle(stim, <<>>, <<>>, IF swallow THEN "ok" ELSE "err")
           ELSE IF InProgress(p) THEN
                UNCHANGED <<ps, pend, tx, cpeer, cdir, caddrs>> /\ Handle(stim, <<>>, <<>>, "ok")
           ELSE LET c == next IN
@@ -162,6 +169,10 @@ UDialAddr(p, a) ==
                /\ NewConn(c, p, "out", <<a>>, "dialing")
                /\ pend' = pend \cup {c}
                /\ Handle(stim, <<[c |-> "dial", cid |-> c, addrs |-> <<a>>]>>, <<>>, "ok")
+
+UDialAddr(p, a) == DialAddrBody(p, a, [a |-> "dial_addr", p |-> p, addr |-> a], FALSE)
+\* TransportService::dial_address -> handle (only checks that a /p2p component exists) -> command
+HDialAddr(p, a) == DialAddrBody(p, a, [a |-> "hdial_addr", p |-> p, addr |-> a], TRUE)
 
 AddKnown(p, a) ==
   /\ known' = [known EXCEPT ![p] = @ \cup {a}]
@@ -337,7 +348,7 @@ ConnClosed(c) ==
 
 Next ==
   \/ \E p \in Peers : UDial(p) \/ HDial(p)
-  \/ \E p \in Peers : \E a \in AddrsOf[p] : UDialAddr(p, a) \/ (a \notin known[p] /\ AddKnown(p, a))
+  \/ \E p \in Peers : \E a \in AddrsOf[p] : UDialAddr(p, a) \/ HDialAddr(p, a) \/ (a \notin known[p] /\ AddKnown(p, a))
   \/ \E c \in DOMAIN tx : TDialFail(c) \/ TEstablished(c) \/ TEstablishedLost(c) \/ TAcceptOk(c) \/ TAcceptErr(c)
                           \/ TOpenFail(c) \/ ConnClosed(c) \/ TInDrop(c)
                           \/ (\E p \in Peers : TInEst(c, p))
